@@ -252,7 +252,76 @@ def r6(rep, prog):
     rep.floor(R, "upper bounds shifted with saturating_sub", n, 1)
 
 
+def r7(rep, prog):
+    """every arm of Column::first_vals fills every slot it is asked for"""
+    from ..rules import natural_loop
+    from ..model import place_local, is_bare
+    R = "C08-R7"
+    rep.rule(R, "'none when absent' also for batched reads: Column::first_vals(docids, output) dispatches on the column index (Empty / Full / Optional / Multivalued, read from the enum). In the arm of every variant each requested slot of `output` is written: either `output` is handed to a callee, or the arm loops over the docids and every iteration stores into output[i] before the next one — an arm that leaves a slot untouched for a row without value returns whatever the caller's buffer held (a stale Some from the previous batch) where `first()` says None")
+    fid = "tantivy_columnar::column::Column::<T>::first_vals"
+    b = get_body(rep, prog, R, fid)
+    ad = prog.adts.get("tantivy_columnar::column_index::ColumnIndex")
+    if b is None or not rep.check(ad is not None, R, "enum ColumnIndex", "found", "cannot establish: ColumnIndex not found"):
+        return
+    variants = [v["name"] for v in ad["variants"]]
+    t0 = b.term(0)
+    if not rep.check(t0["k"] == "switch" and len(t0["vals"]) >= len(variants) - 1, R, "first_vals dispatches on the column index", "%d arms" % len(t0.get("vals", [])),
+                     "cannot establish: Column::first_vals does not start with a switch over the ColumnIndex variants", site=b.span):
+        return
+    arms = {int(v): tg for v, tg in t0["vals"]}
+
+    def writes_output(bi):
+        for st in b.stmts(bi):
+            d = st["d"]
+            if not is_bare(d) and place_local(d) == 3:
+                return True
+        t = b.term(bi)
+        if t["k"] in ("call", "tailcall"):
+            for o in t.get("args", []):
+                l = op_local(o)
+                if l is not None and any(x == ("param", 3) for x in provenance(b, l)):
+                    return True
+        return False
+    for i, name in enumerate(variants):
+        tg = arms.get(i)
+        if tg is None:
+            continue
+        others = frozenset(x for j, x in arms.items() if j != i) | {0}
+        region = set(b.reachable((tg,), blocked=others)) | {tg}
+        wr = {x for x in region if writes_output(x)}
+        heads = [x for x in region if b.term(x)["k"] in ("call",) and (b.term(x).get("f") or "").endswith("Iterator::next") and natural_loop(b, x)]
+        if heads:
+            h = heads[0]
+            # from the Some arm of the iteration back to the header without a write?
+            nxt = b.term(h).get("to")
+            skip = h in b.reachable((nxt,), blocked=frozenset(wr)) if nxt is not None else True
+            # the first hop is the switch on next()'s result: the None arm leaves the loop (fine)
+            ok = bool(wr) and not _loops_back_without(b, h, wr)
+        else:
+            ok = bool(wr)
+        rep.check(ok, R, "the %s arm of first_vals writes every requested slot" % name, "output is written on every iteration" if heads else "output handed to a callee",
+                  "the ColumnIndex::%s arm of Column::first_vals %s: for a row without a value the slot keeps what the caller's buffer held — with a reused buffer first_vals reports [Some(10), Some(12)] where "
+                  "first() gives [None, Some(12)]" % (name, "can go to the next docid without storing into output[i]" if heads else "never writes `output`"), site=site(b, tg))
+
+
+def _loops_back_without(b, h, wr):
+    """can the loop headed by block h complete one more iteration (reach h again through its body) without passing a block of wr"""
+    from ..rules import natural_loop
+    lp = natural_loop(b, h)
+    nxt = b.term(h).get("to")
+    if nxt is None:
+        return True
+    starts = [x for x in b.succ(nxt) if x in lp] if b.term(nxt)["k"] == "switch" else [nxt]
+    for s0 in starts:
+        if s0 in wr:
+            continue
+        if h in b.reachable((s0,), blocked=frozenset(wr)):
+            return True
+    return False
+
+
 def run(rep, prog, tier):
+    r7(rep, prog)
     r2(rep, prog)
     r3(rep, prog)
     r4(rep, prog)
